@@ -25,6 +25,16 @@ Definition is_cont (c : ascii) : bool := (128 <=? code c) && (code c <? 192).
 Definition is_ascii_byte (c : ascii) : bool := code c <? 128.
 Definition is_ascii (s : bytes) : bool := forallb is_ascii_byte s.
 
+(** Well-formedness of the external input: a Rust [str] is a sequence of UTF-8
+    encoded scalar values; the first byte of each gives its length and the others are
+    continuation bytes.  (Only this prefix-code structure is used by the proofs.) *)
+Definition utf8_len (c : ascii) : N :=
+  if code c <? 128 then 1 else if code c <? 192 then 0 else if code c <? 224 then 2
+  else if code c <? 240 then 3 else if code c <? 248 then 4 else 0.
+Definition wf_char (s : bytes) : bool :=
+  match s with [] => false | c :: r => (utf8_len c =? 1 + blen r) && forallb is_cont r end.
+Definition ustr_wf (s : ustr) : bool := forallb (fun u => wf_char (u_orig u)) (us_chars s).
+
 (** str::is_char_boundary: 0 and len are boundaries, otherwise the byte must not be
     a UTF-8 continuation byte; indices past the end are no boundary *)
 Definition char_boundary (s : bytes) (i : N) : bool :=
@@ -385,3 +395,13 @@ Definition map (c : cfg) (id : ustr) (digest : bytes) : res bytes :=
   | E0006 => map_0006 c id
   | E0007 => map_0007 c id
   end.
+
+(** * conditions on the external inputs, and the outcome a caller can observe *)
+Definition is_hex_lower (c : ascii) : bool :=
+  ((48 <=? code c) && (code c <=? 57)) || ((97 <=? code c) && (code c <=? 102)).
+(** the digest argument is a lower-case hex string of the algorithm's length *)
+Definition digest_ok (c : cfg) (digest : bytes) : bool :=
+  (blen digest =? alg_hexlen (c_alg c)) && forallb is_hex_lower digest.
+(** map_object_id has no error channel: an id it cannot map is a panic; for the
+    property both count as "refused" *)
+Definition refusal {A} (r : res A) : res A := match r with Panic => Err | x => x end.
